@@ -773,6 +773,16 @@ def c09_check(sfx, p, dfn, efn, base, i, lab, val, raw, copy):
                 return (f"C09/wraps-silently/{t}", f"{sfx} field {dbf['Id']}: raw {raw!r} ({ticks} ticks) is stored as {got!r} ticks without an error")
         elif val is None and f2.raw_value is not None:
             return (f"C09/absent-corrupted/{p['PGN']}.{dbf['Id']}", f"{sfx} field {dbf['Id']}: absent value decodes back as {f2.raw_value!r}")
+        elif isinstance(val, datetime.time):
+            # given by value: the time of day must come back (to the second; the field may be too narrow for it: then an error or a known wrap)
+            secs = val.hour * 3600 + val.minute * 60 + val.second
+            fits = round(secs / res) < (1 << (dbf["BitLength"] - (1 if dbf.get("Signed") else 0))) - 2
+            if isinstance(f2.value, (int, float)) and not isinstance(f2.value, bool):
+                same = abs(f2.value - secs) <= res / 2 + 1e-9        # a DURATION decodes to a number of seconds
+            else:
+                same = f2.value == val
+            if fits and not same:
+                return (f"C09/time-by-value/{t}", f"{sfx} field {dbf['Id']}: the time {val!r} given as value encodes without error but decodes back as {f2.value!r} (raw {f2.raw_value!r})")
     # locality: every other field's bits unchanged w.r.t. the base encoding
     try:
         xb = int.from_bytes(efn(base), "little")
